@@ -384,7 +384,9 @@ fn one_placement(c: &Case, k: u32, at_stop: Option<u32>, ctx: &mut Ctx) -> Optio
     ctx.count(&format!("reach.probe.{}", cmd.split(' ').next().unwrap_or("")));
     // a host break can also arrive while the interpreter is idle (the CLI polls its CTRL-C channel after every
     // turn of its loop, whatever the state): after the edit there is nothing it could make resumable
+    let mut idle_break = false;
     if matches!(c.probe, ProbeCmd::Cont) && !matches!(c.edit, Edit::Failed(_)) && s.state() == St::Idle && c.prog.order_seed % 3 == 1 {
+        idle_break = true;
         if let Err(p) = crate::sess::guarded(|| s.it.break_at_current_location()) {
             return v("panic", format!("panic@{p}"), format!("host break while idle after edit `{text}` unwound: {p}"));
         }
@@ -410,6 +412,22 @@ fn one_placement(c: &Case, k: u32, at_stop: Option<u32>, ctx: &mut Ctx) -> Optio
         .collect();
     if matches!(c.probe, ProbeCmd::Goto(_)) && expect_err.is_none() {
         return None; // the jump target survives: only "no unwind" is required
+    }
+    if idle_break {
+        // The statement does not say what CONT answers to a break that was taken while idle (C01's protocol has
+        // no such call): CAN'T CONTINUE as on the pinned tree, or a CONT that continues nothing — returns at once,
+        // idle, without a record — are both "nothing of the old program resumed". Anything else (output, an error
+        // located in a line, a program that is running again) is a resumption.
+        let nothing = calls.len() == 1 && matches!(calls[0].res, Res::Ok) && calls[0].state == St::Idle && calls[0].recs.is_empty();
+        let cant = matches!(&err, Some(e) if e.kind == "CannotContinue");
+        if !(nothing || cant) {
+            return v(
+                "probe-differs",
+                format!("CONT after an idle break: got={:?} prints={}", err.as_ref().map(|e| e.kind.clone()), prints.len()),
+                format!("after edit `{text}` (suspended by {how}) and a host break taken while idle, `CONT` resumed something: error {:?}, prints {:?}, {} calls, state after the first {:?}", err.map(|e| e.text), prints, calls.len(), calls[0].state),
+            );
+        }
+        return None;
     }
     match (expect_err, &err) {
         (Some(k), Some(e)) if e.kind == k => {}
@@ -441,7 +459,7 @@ impl Prop for C11 {
     fn meta() -> Meta {
         Meta {
             level: "fault_enumeration",
-            rule: "Programs from the C03 grammar with GOSUB, FOR, DATA, DEF forced on (plus INPUT/STOP). The run is suspended (break at boundary k while running or awaiting input, at a STOP, after completion, after a failure), optionally an immediate statement that opens state from the prompt (FOR, nested FORs, READ), then ONE edit (sometimes followed by 1-4 or 255 / 256 / 257 / 511 / 512 / 65535 / 65536 further edits of a scratch line; sometimes the program is a single line that is deleted) (add a new line, replace an existing line incl. the ones holding the breakpoint / FOR / GOSUB return point / DATA / DEF, delete a line, or a rejected edit whose text cannot tokenize) and ONE probe (CONT — one time in three preceded by a host break that arrives while the interpreter is idle, as the CLI's CTRL-C channel can deliver it —, RETURN, NEXT v, PRINT FNW(3), READ Q$ : PRINT Q$, GOTO n surviving/deleted, PRINT v). Mode EveryBoundary (always in thorough, 1 in 5 in quick) places the suspension at EVERY boundary of the run in turn. Oracle after a successful edit: probe snapshot has no breakpoint/frames/loops/functions/data cursor while variables and arrays (content hash) are unchanged, and the probe command answers CAN'T CONTINUE / RETURN WITHOUT GOSUB / NEXT WITHOUT FOR / array default 0 / first DATA item of the edited program / UNDEF'D STATEMENT. After a rejected edit: snapshot identical and break+rejected edit+CONT continues exactly like the uninterrupted run. distinct_nontrivial = distinct (program, boundary, edit, probe) hashes among placements where the snapshot before the edit held at least one of frame/loop/data cursor/function/breakpoint.",
+            rule: "Programs from the C03 grammar with GOSUB, FOR, DATA, DEF forced on (plus INPUT/STOP). The run is suspended (break at boundary k while running or awaiting input, at a STOP, after completion, after a failure), optionally an immediate statement that opens state from the prompt (FOR, nested FORs, READ), then ONE edit (sometimes followed by 1-4 or 255 / 256 / 257 / 511 / 512 / 65535 / 65536 further edits of a scratch line; sometimes the program is a single line that is deleted) (add a new line, replace an existing line incl. the ones holding the breakpoint / FOR / GOSUB return point / DATA / DEF, delete a line, or a rejected edit whose text cannot tokenize) and ONE probe (CONT — one time in three preceded by a host break that arrives while the interpreter is idle, as the CLI's CTRL-C channel can deliver it; then CONT may also be a no-op, but must not resume anything —, RETURN, NEXT v, PRINT FNW(3), READ Q$ : PRINT Q$, GOTO n surviving/deleted, PRINT v). Mode EveryBoundary (always in thorough, 1 in 5 in quick) places the suspension at EVERY boundary of the run in turn. Oracle after a successful edit: probe snapshot has no breakpoint/frames/loops/functions/data cursor while variables and arrays (content hash) are unchanged, and the probe command answers CAN'T CONTINUE / RETURN WITHOUT GOSUB / NEXT WITHOUT FOR / array default 0 / first DATA item of the edited program / UNDEF'D STATEMENT. After a rejected edit: snapshot identical and break+rejected edit+CONT continues exactly like the uninterrupted run. distinct_nontrivial = distinct (program, boundary, edit, probe) hashes among placements where the snapshot before the edit held at least one of frame/loop/data cursor/function/breakpoint.",
             real: &["abasic-core Interpreter (set_numbered_line and its five resets, CONT/RETURN/NEXT/READ/function lookup paths)"],
             stub: &["the host (suspension point, edit, probe)"],
             assumptions: &["edits that change nothing (deleting an absent line, re-entering identical text) are not generated: the statement is silent about them"],
